@@ -270,6 +270,12 @@ fn case1<T: Elem>(case: u64, args: &Args, ev: &mut Ev) {
         gen_linear_case::<T>(&mut rng, &LinearOpts { max_n: 8, max_lane_rank: 3, allow_cluster: false, extrapolate, ..Default::default() })
     };
     ev.count("extrapolate", if extrapolate { "on" } else { "off" });
+    let mut spec = spec;
+    if !spline && !spec.broadcast_lanes && case % 5 == 2 {
+        // the buffer must equal the allocating variant bit for bit whatever the data contain
+        let k = sprinkle_specials(&mut rng, &mut spec.data);
+        ev.add("special_data_samples", k as u64);
+    }
     let x = spec.axis();
     let lane_shape = spec.lane_shape();
     let h = hash_bits(&[&bits_of(&x), &bits_of_arr(&spec.data)], &[T::NAME, &spec.dim_name(), &spec.strat.name()]);
